@@ -48,11 +48,34 @@ def repo_key():
     return "alt_" + hashlib.sha1(r.encode()).hexdigest()[:10]
 
 
+def alt_base():
+    return os.path.join(WORK, "alt", repo_key())
+
+
+def sim_dir():
+    """Directory holding the simulator workspace to build.  For /repo this is
+    /verif/sim (its crates reach the SUT through /verif/.work/sut -> /repo).
+    For a scratch copy (VERIF_REPO, sensitivity work only) the workspace
+    sources are mirrored under .work/alt/<key>/ with their own sut link, so
+    that concurrent runs against different trees cannot disturb each other."""
+    if repo() == "/repo":
+        return SIM
+    return os.path.join(alt_base(), "sim")
+
+
 def ensure_sut_link():
-    """The harness crates reach the SUT through .work/sut (-> /repo by default)."""
-    os.makedirs(WORK, exist_ok=True)
-    link = os.path.join(WORK, "sut")
     want = repo()
+    if not os.path.isdir(os.path.join(want, "jmespath", "src")):
+        raise HarnessError("no jmespath sources under %s" % want)
+    if want == "/repo":
+        base = VERIF
+    else:
+        base = alt_base()
+        os.makedirs(base, exist_ok=True)
+        shutil.copytree(SIM, os.path.join(base, "sim"), dirs_exist_ok=True,
+                        ignore=shutil.ignore_patterns("target*"))
+    os.makedirs(os.path.join(base, ".work"), exist_ok=True)
+    link = os.path.join(base, ".work", "sut")
     try:
         cur = os.readlink(link)
     except OSError:
@@ -63,12 +86,12 @@ def ensure_sut_link():
         except OSError:
             pass
         os.symlink(want, link)
-    if not os.path.isdir(os.path.join(want, "jmespath", "src")):
-        raise HarnessError("no jmespath sources under %s" % want)
 
 
 def target_dir(variant):
-    return os.path.join(WORK, "target", repo_key(), variant)
+    if repo() == "/repo":
+        return os.path.join(WORK, "target", "repo", variant)
+    return os.path.join(alt_base(), "target", variant)
 
 
 def cargo_env(extra=None):
@@ -81,12 +104,13 @@ def cargo_env(extra=None):
     return env
 
 
-def cargo_build(pkg, variant, features=None, toolchain=None, manifest_dir=SIM, extra_env=None,
+def cargo_build(pkg, variant, features=None, toolchain=None, manifest_dir=None, extra_env=None,
                 bin_name=None, profile_release=True, allow_fail=False):
     """Build one simulator binary against the current tree.  Returns its path.
     cargo's own fingerprinting rebuilds whenever a source file under the SUT
     changed."""
     ensure_sut_link()
+    manifest_dir = manifest_dir or sim_dir()
     td = target_dir(variant)
     cmd = ["cargo"]
     if toolchain:
